@@ -350,6 +350,13 @@ def run_u_to_euler(u, desc, mod, modname, checks, tier):
                 for g_, det_ in goals:
                     u.prove('C03/%s.u_to_euler/rebuild[zeroing-path]' % modname, pre, g_, replay=rp, detail=det_, timeout=qt, cvc5_timeout=qt)
             else:
+                # first the whole bound in one query (a violating input, if any, is usually found in under a second) ...
+                allgoal = z3.And([z3.And(zc.cmp0(r - tol6, '<='), zc.cmp0(r + tol6, '>=')) for k, r in nz])
+                st_all = u.prove('C03/%s.u_to_euler/rebuild[zeroing-path]/direct-all' % modname, pre, allgoal, replay=rp,
+                                 detail='|euler_to_u(u_to_euler(U)) - U| <= 1e-6 (all entries) on path %s' % tag, timeout=10, cvc5_timeout=10)
+                if st_all in ('discharged', 'violated'):
+                    continue
+                u.results.pop()          # inconclusive as a whole: ... then entry by entry
                 for k, r in nz:
                     for sg, op in ((-1, '<='), (1, '>=')):
                         u.prove('C03/%s.u_to_euler/rebuild[zeroing-path]/direct' % modname, pre, zc.cmp0(r + sg * tol6, op), replay=rp,
